@@ -436,6 +436,31 @@ func init() {
 			var c value = structure{args[0]}
 			return &c
 		},
+		// a crc64 digest accumulates its input; the sum is the checksum of everything written (native on concrete
+		// bytes, the uninterpreted function on symbolic ones)
+		"(*hash/crc64.digest).Write": func(fr *frame, args []value) value {
+			d := args[0].(*value)
+			if fr.i.crcAcc == nil {
+				fr.i.crcAcc = map[*value][]value{}
+			}
+			p := args[1].([]value)
+			fr.i.crcAcc[d] = append(fr.i.crcAcc[d], p...)
+			return tuple{len(p), iface{}}
+		},
+		"(*hash/crc64.digest).Reset": func(fr *frame, args []value) value {
+			delete(fr.i.crcAcc, args[0].(*value))
+			return nil
+		},
+		"(*hash/crc64.digest).Sum64": func(fr *frame, args []value) value {
+			bs := fr.i.crcAcc[args[0].(*value)]
+			if symBytes(bs) {
+				return fr.i.ufHash("crc64", bs, 64, types.Uint64)
+			}
+			nb := nativeBytes(bs)
+			h := crc64.Checksum(nb, crc64.MakeTable(crc64.ISO))
+			fr.i.ufConcrete("crc64", nb, h)
+			return h
+		},
 		"hash/crc64.Checksum": func(fr *frame, args []value) value {
 			bs := args[0].([]value)
 			poly := uint64(crc64.ISO)
